@@ -195,7 +195,10 @@ Definition text_ok (cs : list N) : bool := forallb (fun c => scalar_ok c && negb
 Definition cmd_ok (c : cmd) : bool :=
   match c with
   | Char c => scalar_ok c && negb (char_introducer c)
-  | Face f => orgba_ok (f_fg f) && orgba_ok (f_bg f) && (f_bits f <? 256)
+  | Face f =>
+      (* FaceAttrs bits: every public operation packs (underline style, flags), so the
+         underline code is 0..5; the codes 6 and 7 cannot be constructed *)
+      orgba_ok (f_fg f) && orgba_ok (f_bg f) && (f_bits f <? 256) && (N.land (f_bits f) 7 <=? 5)
   | FaceModify m => orgba_ok (fm_fg m) && orgba_ok (fm_bg m) && orgba_ok (fm_ucolor m)
   | CursorTo r c => (r <=? usize_max) && (c <=? usize_max)
   | CursorMove r c => ((i32_min <=? r) && (r <=? i32_max) && (i32_min <=? c) && (c <=? i32_max))%Z
